@@ -16,7 +16,10 @@ fn worlds(thorough: bool) -> Vec<Built> {
     v.push(stdworlds::build_with_roots(&stdworlds::chain_spec("c05-chain-ddd", [Enc::Dynamic, Enc::Dynamic, Enc::Dynamic], 100, 0), &stdworlds::chain_roots()));
     v.push(stdworlds::build_with_roots(&stdworlds::edge_spec("c05-edge-fdd", [Enc::Fixed, Enc::Dynamic, Enc::Dynamic]), &stdworlds::edge_roots()));
     v.push(stdworlds::build_with_roots(&stdworlds::chain_spec("c05-dust-fdf", [Enc::Fixed, Enc::Dynamic, Enc::Fixed], 3000, 300), &stdworlds::dust_roots()));
+    // every byte of an initialised tick non-zero (see build_hot_with_roots): codec faults of the dynamic / fixed tick views
+    v.push(stdworlds::build_hot_with_roots(&stdworlds::chain_spec("c05-hot-ddd", [Enc::Dynamic, Enc::Dynamic, Enc::Dynamic], 3000, 300), &stdworlds::chain_roots()));
     if thorough {
+        v.push(stdworlds::build_hot_with_roots(&stdworlds::std_spec("c05-hot-fdf", [Enc::Fixed, Enc::Dynamic, Enc::Fixed], 3000, 300), &stdworlds::std_roots()[..3]));
         v.push(stdworlds::build_with_roots(&stdworlds::chain_spec_at("c05-chain-low", [Enc::Dynamic, Enc::Fixed, Enc::Dynamic], 3000, 300, -112640), &stdworlds::chain_roots()));
         v.push(stdworlds::build_with_roots(&stdworlds::std_spec("c05-std-fdf", [Enc::Fixed, Enc::Dynamic, Enc::Fixed], 100, 0), &stdworlds::std_roots()[1..]));
     }
